@@ -400,6 +400,28 @@ def _lines_inside_string_literals(code: str) -> Set[int]:
     return linenos
 
 
+def _pad_braces(source: str, start: int, end: int, new_code: str) -> str:
+    """Keep the braces of new_code apart from the braces of an f-string replacement field.
+
+    '{{' and '}}' in an f-string are escaped braces: f"{set([x])}" must become f"{ {x} }", not
+    f"{{x}}", which is valid python but no longer has a replacement field.
+    """
+    if not (
+        (new_code.startswith("{") and source[max(start - 1, 0) : start] == "{")
+        or (new_code.endswith("}") and source[end : end + 1] == "}")
+    ):
+        return new_code
+
+    candidate = source[:start] + new_code + source[end:]
+    padded = source[:start] + " " + new_code + " " + source[end:]
+    if core.is_valid_python(padded) and not (
+        core.is_valid_python(candidate) and _sources_equivalent(candidate, padded)
+    ):
+        return " " + new_code + " "
+
+    return new_code
+
+
 def _significant_lines(code: str) -> Sequence[str]:
     """The lines of code without blank lines and trailing whitespace."""
     return [line.rstrip() for line in code.splitlines() if line.strip()]
@@ -452,6 +474,7 @@ def _do_rewrite(
             # exist in the source, so the indentation has to be written out.
             new_code = " " * (old.start - len(source)) + new_code
 
+        new_code = _pad_braces(source, old.start, old.end, new_code)
         candidate = source[: old.start] + new_code + source[old.end :]
         if new_code or core.is_valid_python(candidate):
             choice = candidate
@@ -502,6 +525,7 @@ def _do_rewrite(
         # in the source, so its indentation has to be written out.
         new_code = " " * (start - len(source)) + new_code
 
+    new_code = _pad_braces(source, start, end, new_code)
     candidate = source[:start] + new_code + source[end:]
 
     if new_code.strip() and isinstance(old, ast.GeneratorExp):
